@@ -150,6 +150,23 @@ fn interesting(occs: &[&Node], s: &Schema) -> bool {
     })
 }
 
+fn small_oracle(docs: &[&Node], bytes: &[Vec<u8>]) -> Result<bool, String> {
+    let schema = crate::refinf::infer("r", docs);
+    let root = crate::sut::parse_seq(bytes).map_err(|(i, e)| format!("document #{} rejected: {}", i + 1, e))?;
+    let mut trees = Vec::new();
+    let mut srcs = Vec::new();
+    for by_name in [false, true] {
+        let src = root.to_serde_struct(&sut::opts_quick(by_name, "Serialize, Deserialize"));
+        let defs = crate::rendered::read_lines(&src).map_err(|e| format!("output unreadable: {}\n{}", e, src))?;
+        trees.push(crate::rendered::build_tree(&defs, "@", "$text").map_err(|e| format!("not a tree: {}\n{}", e, src))?);
+        srcs.push(src);
+    }
+    check_unsorted(&schema, &trees[0], "").map_err(|e| format!("unsorted rendering: {}\n{}", e, srcs[0]))?;
+    check_sorted(&schema, &trees[1], "").map_err(|e| format!("{}\n{}", e, srcs[1]))?;
+    same_up_to_order(&trees[0], &trees[1], "").map_err(|e| format!("switching the sort option changed more than orders: {}", e))?;
+    Ok(interesting(docs, &schema))
+}
+
 impl Property for C09 {
     fn id(&self) -> &'static str {
         "C09"
@@ -196,8 +213,28 @@ impl Property for C09 {
         }
         Ok(())
     }
+    fn extra(&self, tier: Tier, _seed: u64, st: &mut Stats) -> Result<(), (Failure, Value)> {
+        // small-scope exhaustive part: orders on every ordered pair / triple of small documents
+        let scopes: &[(usize, usize)] = match tier {
+            Tier::Quick => &[(3, 2), (2, 3)],
+            Tier::Thorough => &[(4, 2), (3, 3)],
+        };
+        for (max_nodes, arity) in scopes {
+            let (evals, nts, fail) = super::smallscope::run_tuples(*max_nodes, *arity, small_oracle);
+            st.evaluations += evals;
+            st.nontrivial_enumerated += nts;
+            st.add(&format!("exhaustive.nodes<={}.sequences_of_{}", max_nodes, arity), evals);
+            if let Some((e, docs)) = fail {
+                return Err((Failure::new(format!("small-scope exhaustive search: {}", e)).with_detail(json!({"documents": docs})), json!({"small_scope_documents": docs})));
+            }
+        }
+        Ok(())
+    }
+    fn exhaustive(&self) -> bool {
+        true
+    }
     fn rule(&self) -> String {
-        "tape-decoded document sequences (all name classes, full surface variation, 1 in 8 wide); both sort options are rendered, read back into struct trees (struct items consumed in pre-order of the field order) and compared with the reference first-appearance orders (unsorted) and with ascending full XML names (sorted); the two renderings must agree on everything but order. Non-trivial = some later occurrence introduces two or more new attributes or children at once, or a position with three or more children has an optional child; distinct by hash of the structural documents.".into()
+        "small-scope exhaustive: all ordered pairs / triples of small documents (as C03); sampled: tape-decoded document sequences (all name classes, full surface variation, 1 in 8 wide); both sort options are rendered, read back into struct trees (struct items consumed in pre-order of the field order) and compared with the reference first-appearance orders (unsorted) and with ascending full XML names (sorted); the two renderings must agree on everything but order. Non-trivial = some later occurrence introduces two or more new attributes or children at once, or a position with three or more children has an optional child; distinct by hash of the structural documents.".into()
     }
     fn assumptions(&self) -> Vec<String> {
         vec![
